@@ -21,5 +21,5 @@ echo "## 4. our checks on /repo + patch (must all stay silent)"
 git -C /repo apply $out/patch.diff || { echo "patch does not apply to /repo"; exit 2; }
 props="$@"; [ -z "$props" ] && props="C01 C02 C03 C04 C05 C06 C07 C08 C09 C10 C11 C12 C13 C14 C15 C16 C17 C18"
 for p in $props; do /verif/run.sh $p quick 2>&1 | grep -E "VIOLATION|sub-check|tier=|^error|could not compile" | cut -c1-400; done
-git -C /repo checkout -- .
+git -C /repo checkout -- . && git -C /repo clean -fdq
 git -C /repo status --short
